@@ -399,8 +399,13 @@ def ref_string_parse(enc, packet, pos, adj=None):
     if L != int(L):
         return Raises('ValueError')
     L = int(L)
-    if L < 0 or pos + L > 8 * len(packet.raw_data):
+    if L < 0:
         return Raises('ValueError')
+    if pos + L > 8 * len(packet.raw_data):
+        # a string buffer that extends past the end of the packet: the statements leave the field itself unspecified
+        # (the library reads such a buffer through the unchecked integer read); what they pin down is that the PACKET is
+        # then never delivered as clean (C14) - checked at stream level
+        return Raises('PastEnd')
     pad = (8 - L % 8) % 8
     raw = (ref_bits(packet.raw_data, pos, L) << pad).to_bytes((L + pad) // 8, 'big')
     if enc.leading_length_size:
@@ -623,8 +628,10 @@ def ref_stream(defn, raw_packets, headers_only=False, combine=False, sec=0, yiel
                 out.append(('unrecognized', val))
             continue
         if kind == 'error':
-            out.append(('raise', val))
-            break
+            # the reference decoder rejects this packet (a field past the end, an unlisted enumeration value,
+            # undecodable text ...): the library may raise, or carry on and flag / withhold it - see stream_matches
+            out.append(('maybe_bad', data))
+            continue
         clean = (val.pos == 8 * len(data))
         if not clean:
             warnings_expected['length'] += 1
@@ -637,26 +644,32 @@ def ref_stream(defn, raw_packets, headers_only=False, combine=False, sec=0, yiel
 def stream_matches(real, expected):
     """real = {'items': [...], 'warnings': [messages], 'raised': class name or None}.
     Where the reference decoder prescribes a decode error for a packet (a field extends past the end of the packet,
-    an unlisted enumeration value, undecodable text ...) the library may raise any exception or carry on, but the item
-    for THAT packet must not be delivered as clean (C14); everything before it must match exactly."""
+    an unlisted enumeration value, undecodable text ...) the library may raise any exception (the stream ends there) or
+    carry on; if it carries on, the item for THAT packet - when there is one - must not be delivered as clean (C14), and
+    every other packet of the stream is still compared exactly, in order."""
     exp, warns = expected
     items = real['items']
-    cut = None
-    if exp and exp[-1][0] == 'raise':
-        cut = len(exp) - 1
-        exp = exp[:-1]
-    if cut is None:
-        if real['raised'] is not None or len(items) != len(exp):
-            return False
-    else:
-        if len(items) < len(exp):
-            return False
-        if len(items) > cut:
-            it = items[cut]
-            if type(it).__name__ == 'CCSDSPacket' and it.raw_data.pos == 8 * len(it.raw_data):
-                return False        # an over-read / undecodable packet delivered as if it were clean
-        items = items[:cut]
-    for it, e in zip(items, exp):
+    i = 0
+    bad_seen = False
+    for e in exp:
+        if e[0] == 'maybe_bad':
+            bad_seen = True
+            if i < len(items) and type(items[i]).__name__ == 'CCSDSPacket' and bytes(items[i].raw_data) == e[1]:
+                it = items[i]
+                if it.raw_data.pos == 8 * len(it.raw_data):
+                    return False        # an over-read / undecodable packet delivered as if it were clean
+                i += 1
+            elif i < len(items) and type(items[i]).__name__ == 'UnrecognizedPacketTypeError' and \
+                    getattr(items[i], 'partial_data', None) is not None and \
+                    bytes(items[i].partial_data.raw_data) == e[1]:
+                # carried on past the field the reference rejects and ended at a dead end: reported as unrecognized
+                i += 1
+            continue
+        if i >= len(items):
+            # nothing more was yielded: only acceptable when the library raised at a packet the reference rejects
+            return bool(real['raised'] is not None and bad_seen)
+        it = items[i]
+        i += 1
         if e[0] == 'raw':
             if bytes(it) != e[1] or type(it).__name__ != 'RawPacketData':
                 return False
@@ -668,7 +681,11 @@ def stream_matches(real, expected):
                 return False
             if (it.raw_data.pos == 8 * len(it.raw_data)) != e[2]:
                 return False
-    if cut is None:
+    if i != len(items):
+        return False
+    if real['raised'] is not None and not bad_seen:
+        return False
+    if not bad_seen:
         nlen = sum(1 for w in real['warnings'] if 'did not match' in w)
         nseg = sum(1 for w in real['warnings'] if 'ontinuation' in w)
         if nlen != warns['length'] or nseg != warns['segment']:
